@@ -267,6 +267,29 @@ class Pipe(object):
     def home(self):
         return self.feed("G28")
 
+    def prologue(self):
+        """PRINT prologue: G28 through the real handler, then one positioning move with arbitrary
+        X/Y/Z/E/F whose destination is assumed to be outside every region (so the tool, the extruder
+        register and the feed rate start from generic values instead of the home position)."""
+        self.feed("G28")
+        w = self.w
+        vals = [w.real("p0_%s" % a) for a in "XYZEF"]
+        text = "G1 " + " ".join(a + w.key(v) for a, v in zip("XYZEF", vals))
+        rec = self.begin(text)
+        w.assume(vals[3] > 0)          # an extruding move (no retraction state is created)
+        w.assume(vals[4] > 0)
+        if self.regions and self.enabled:
+            w.assume(alg.not_(rec.dest_inside))
+        return self.finish()
+
+
+def synth_has_e(rec):
+    """Did the filter emit a command of its own (not the original text) that carries an E word?"""
+    for e in rec.emitted:
+        if e != rec.text and rs274.read(e).has("E"):
+            return True
+    return False
+
 
 # ---- shape alphabets ---------------------------------------------------------------------------------------
 MOVES_BASIC = [S("G1", "X# Y#"), S("G1", "X# Y# E#"), S("G0", "X#"), S("G1", "Y#"), S("G1", "Z#"),
